@@ -10,7 +10,7 @@
 #define TSNPD_H
 #include <complex.h>
 
-#define TSNPD_MAXP	6		/* ports */
+#define TSNPD_MAXP	8		/* ports */
 #define TSNPD_MAXF	3		/* frequencies */
 #define TSNPD_MAXFORM	4		/* NPD parameter forms per file */
 #define TSNPD_MAXNUM	(2 * TSNPD_MAXP * TSNPD_MAXP)
